@@ -90,12 +90,14 @@ type Built struct {
 }
 
 type FnCall struct {
-	ID       int
-	Path     string
-	Args     []string
-	CtxOK    bool
-	View     []ViewEntry
-	ViewKeys []string
+	ID           int
+	Path         string
+	Args         []string
+	CtxOK        bool
+	View         []ViewEntry
+	ViewKeys     []string
+	viewT        []*T
+	ViewMismatch []string
 }
 
 type ViewEntry struct {
@@ -347,7 +349,11 @@ func (b *Built) defineCmd(g *getoptions.GetOpt, path string, c *CmdDef) {
 				o := d.Options[d.Root.OptionIDs[i]]
 				call.ViewKeys = append(call.ViewKeys, k)
 				call.View = append(call.View, ViewEntry{Key: k, Value: fmt.Sprintf("%#v", opt.Value(k)), Called: opt.Called(k), As: opt.CalledAs(k)})
-				_ = o
+				call.viewT = append(call.viewT, Pair(Str(k), tState(o)))
+				// the view's own query API must agree with the option objects it holds
+				if opt.Called(k) != o.Called || opt.CalledAs(k) != o.UsedAlias {
+					call.ViewMismatch = append(call.ViewMismatch, k)
+				}
 			}
 			b.FnCalls = append(b.FnCalls, call)
 			return b.FnErr
